@@ -1,6 +1,7 @@
 package sim
 
 import (
+	"github.com/hugelgupf/p9/linux"
 	"fmt"
 	"os"
 	"path/filepath"
@@ -53,7 +54,36 @@ func c19Names(ch func(int) int, n int) []string {
 }
 
 // pageThrough lists a directory by repeated Readdir calls.
-func pageThrough(d p9.File, count uint32, limit int) (p9.Dirents, int, string) {
+// A mount whose root fails GetAttr a given number of times (EIO), then works.
+type flakyAtt struct {
+	p9.Attacher
+	n *int
+}
+
+func (a flakyAtt) Attach() (p9.File, error) {
+	f, err := a.Attacher.Attach()
+	if err != nil {
+		return nil, err
+	}
+	return &flakyFile{File: f, n: a.n}, nil
+}
+
+type flakyFile struct {
+	p9.File
+	n *int
+}
+
+func (f *flakyFile) GetAttr(m p9.AttrMask) (p9.QID, p9.AttrMask, p9.Attr, error) {
+	if *f.n > 0 {
+		*f.n--
+		return p9.QID{}, p9.AttrMask{}, p9.Attr{}, linux.EIO
+	}
+	return f.File.GetAttr(m)
+}
+
+// pageThrough lists d page by page.  tolerate: number of failed Readdir calls
+// that are simply repeated (transient backend errors injected by the caller).
+func pageThrough(d p9.File, count uint32, limit int, tolerate int) (p9.Dirents, int, string) {
 	var all p9.Dirents
 	off := uint64(0)
 	calls := 0
@@ -63,6 +93,11 @@ func pageThrough(d p9.File, count uint32, limit int) (p9.Dirents, int, string) {
 			return all, calls, fmt.Sprintf("the paging loop did not terminate after %d calls (%d entries so far)", calls, len(all))
 		}
 		ents, err := d.Readdir(off, count)
+		if err != nil && tolerate > 0 {
+			tolerate--
+			limit++
+			continue
+		}
 		if err != nil {
 			return all, calls, fmt.Sprintf("Readdir(%d, %d) failed: %v", off, count, err)
 		}
@@ -109,8 +144,11 @@ func runC19(rcx *RunCtx) {
 	defer func() {
 		if tmp != "" {
 			os.RemoveAll(tmp)
+			os.RemoveAll(tmp + ".old")
 		}
 	}()
+	flaky, flakyArm := 0, 0
+	replaceMounted := false
 	pages := 0
 	rcx.Res = simrt.Run(cfg, rcx.Sched, func() {
 		find := func(oracle, key, format string, args ...interface{}) {
@@ -166,8 +204,12 @@ func runC19(rcx *RunCtx) {
 				truth[s] = true
 			}
 			st, _ := staticfs.New(staticfs.WithFile("inside", "x"))
-			inner = append(inner, composefs.WithMount("zz-static", st), composefs.WithMount("zz-local", localfs.Attacher(tmp)))
-			truth["zz-static"], truth["zz-local"] = true, true
+			st2, _ := staticfs.New(staticfs.WithFile("inside2", "y"))
+			inner = append(inner, composefs.WithMount("zz-static", st), composefs.WithMount("zz-local", localfs.Attacher(tmp)),
+				composefs.WithMount("zz-flaky", flakyAtt{Attacher: st2, n: &flaky}))
+			truth["zz-static"], truth["zz-local"], truth["zz-flaky"] = true, true, true
+			replaceMounted = simrt.Choose(2) == 1
+			flakyArm = simrt.Choose(3)
 			var fs *composefs.FS
 			var err error
 			if backend == 2 {
@@ -238,7 +280,20 @@ func runC19(rcx *RunCtx) {
 			}
 			return
 		}
-		all, ncalls, problem := pageThrough(dir, count, len(truth)+8)
+		if replaceMounted {
+			// the directory behind the local mount is replaced by a new one
+			// of the same name: what the listing says about "zz-local" must
+			// be what Walk and GetAttr say, now
+			os.Rename(tmp, tmp+".old")
+			os.Mkdir(tmp, 0o755)
+			os.WriteFile(filepath.Join(tmp, "new"), []byte("n"), 0o644)
+			rcx.Count("mounted_directory_replaced", 1)
+		}
+		// transient errors of one mount's GetAttr while listing: a failed
+		// Readdir call is repeated, a successful one must be right
+		flaky = flakyArm
+		all, ncalls, problem := pageThrough(dir, count, len(truth)+8, flakyArm)
+		flaky = 0
 		pages = ncalls
 		if problem != "" {
 			find("paging", "loop", "%s listing %d entries with count %d: %s", bname, len(truth), count, problem)
@@ -345,7 +400,7 @@ func init() {
 		Desc: "directory listing: every entry exactly once over localfs/staticfs/composefs, QIDs agree with Walk/GetAttr",
 		Run:  runC19,
 		Quick: 12000, Thorough: 300000, QuickSecs: 60, ThorSecs: 1200,
-		Rule:  "backends in rotation: localfs on a temporary directory (files, subdirectories, symlinks), staticfs, composefs flat (files + a static mount + a localfs mount) and nested (the same below a WithDir mount), each through real client + real server, plus localfs directly on the File; directory sizes {0,1,2,3,10,100,1000} (5000 occasionally in thorough), name lengths 1..255, count in {one entry, +1, two entries, three+7, 512, 4000, msize-24, msize, 2*msize, 1 MiB}, msize {4096, 8192, 65536}, versions 0..7. Oracle: the paging loop 'offset := Offset of the last entry' terminates within n+8 calls and the multiset of names equals the ground truth (each exactly once); each (sampled, for large listings) entry's QID and type equal what Walk(name) and GetAttr on the result report. A sequence/state property, not a schedule property; the simulator supplies the real stack and determinism.",
+		Rule:  "backends in rotation: localfs on a temporary directory (files, subdirectories, symlinks), staticfs, composefs flat (files + a static mount + a localfs mount whose directory is replaced by a new one of the same name before listing in half of the runs + a mount whose GetAttr fails 0-2 times during the listing, failed Readdir calls being repeated) and nested (the same below a WithDir mount), each through real client + real server, plus localfs directly on the File; directory sizes {0,1,2,3,10,100,1000} (5000 occasionally in thorough), name lengths 1..255, count in {one entry, +1, two entries, three+7, 512, 4000, msize-24, msize, 2*msize, 1 MiB}, msize {4096, 8192, 65536}, versions 0..7. Oracle: the paging loop 'offset := Offset of the last entry' terminates within n+8 calls and the multiset of names equals the ground truth (each exactly once); each (sampled, for large listings) entry's QID and type equal what Walk(name) and GetAttr on the result report. A sequence/state property, not a schedule property; the simulator supplies the real stack and determinism.",
 		Assume: []string{"the temporary directory is not modified while it is listed"},
 		Real:   []string{"fsimpl/localfs (real syscalls on a temp dir)", "fsimpl/staticfs", "fsimpl/composefs", "fsimpl/readdir", "fsimpl/qids", "p9.Server treaddir/rreaddir encode", "p9.Client"},
 		Stub:   []string{"transport (simnet + relay)"},
